@@ -528,7 +528,56 @@ def random_nd(ctx, sub):
                   order=order, axis=dname, n=n, cell=dx, **cls)
 
 
+# ------------------------------------------------------------------ part C: large meshes
+def large_nd(ctx):
+    """One long axis (65-100 cells) times several thousand grid lines: sizes at which a
+    blocked / grouped / vectorised implementation has more than one block, lines that agree
+    over their first 64 cells and differ further along, run ends deep inside the array.
+    Fully valid, or a sample with a few holes (1-3 invalid cells on a third of the lines)."""
+    rng = ctx.rng
+    nd = int(rng.integers(2, 4))
+    ax = int(rng.integers(0, nd))
+    n = np.zeros(nd, dtype=int)
+    n[ax] = int(rng.integers(65, 101))
+    others = [j for j in range(nd) if j != ax]
+    lines = int(rng.integers(4100, 5000))
+    if len(others) == 1:
+        n[others[0]] = lines
+    else:
+        n[others[0]] = int(rng.integers(60, 75))
+        n[others[1]] = lines // n[others[0]] + 1
+    scale = 10.0 ** rng.uniform(-9, 3)
+    cell = scale * rng.uniform(0.2, 5.0, nd)
+    pmin = rng.uniform(-1, 1, nd) * 10.0 ** rng.uniform(-1, 2) * cell * n
+    dims = [gen.pick(rng, SINGLE_CHAR_POOLS)[j] for j in rng.permutation(4)[:nd]]
+    periodic = rng.random() < 0.3
+    dname = dims[ax]
+    spec = gen.MeshSpec(pmin, cell, n, dims, None, np.zeros(nd, dtype=bool))
+    mesh = spec.mesh(bc=dname if periodic else "")
+    dx = float(mesh.cell[ax])
+    order = int(rng.integers(1, 3))
+    nt = tuple(int(k) for k in n)
+    valid = np.ones(nt, dtype=bool)
+    holes = rng.random() < 0.6
+    if holes:
+        other_shape = tuple(k for j, k in enumerate(nt) if j != ax)
+        for oidx in np.ndindex(*other_shape):
+            if rng.random() < 0.33:
+                line = oidx[:ax] + (slice(None),) + oidx[ax:]
+                v = np.ones(nt[ax], dtype=bool)
+                v[rng.integers(0, nt[ax], int(rng.integers(1, 4)))] = False
+                valid[line] = v
+    cls = {"part": "large_nd", "ndim": nd, "periodic": periodic, "has_invalid": holes,
+           "has_subregions": False, "bc": mesh.bc, "dims": dims, "lines": int(np.prod(n) // n[ax])}
+    ctx.sig(("large", nd, ax, order, periodic, holes), nontrivial=True)
+    ctx.sample(dict(cls, order=order, axis=dname, **spec.describe()))
+    ctx.event("large_meshes")
+    check_polynomial(ctx, mesh, dname, ax, dx, order, periodic, valid, cls)
+
+
 def run_case(ctx, i):
+    if i % 1270 == 633:
+        return large_nd(ctx)
     # 5 is coprime to the worker counts (8, 16): every shard gets the same mix
     if i % 5 != 4:
         exhaustive(ctx, 4 * (i // 5) + i % 5)
